@@ -373,25 +373,37 @@ func refQuicSequence(dgrams [][]byte) verdict {
 	if total > 1<<20 {
 		return v
 	}
-	stream := make([]byte, total)
-	have := make([]bool, total)
-	for _, s := range segs {
-		for i, x := range s.data {
-			if have[s.off+i] && stream[s.off+i] != x {
-				strict = false
+	// two reassembly policies where frames disagree about a byte (RFC 9000 §19.6 lets a receiver treat that as an error
+	// or keep either copy): first copy wins / last copy wins — a name found under either is "carried"
+	build := func(lastWins bool) []byte {
+		stream := make([]byte, total)
+		have := make([]bool, total)
+		for _, s := range segs {
+			for i, x := range s.data {
+				if have[s.off+i] {
+					if stream[s.off+i] != x {
+						strict = false
+						if lastWins {
+							stream[s.off+i] = x
+						}
+					}
+					continue
+				}
+				stream[s.off+i], have[s.off+i] = x, true
 			}
-			stream[s.off+i], have[s.off+i] = x, true
 		}
+		contig := 0
+		for contig < total && have[contig] {
+			contig++
+		}
+		if contig != total {
+			strict = false
+		}
+		return stream[:contig]
 	}
-	contig := 0
-	for contig < total && have[contig] {
-		contig++
-	}
-	if contig != total {
-		strict = false
-	}
-	pre := stream[:contig]
+	pre := build(false)
 	v.carried = carriedHello(pre)
+	v.carried = append(v.carried, carriedHello(build(true))...)
 	if strict {
 		if ok, name, has := strictHello(pre); ok && has {
 			v.required, v.name = true, normName(name)
